@@ -459,7 +459,7 @@ def big_files(ctx, rnd, big):
     """385 samples x 385 channels, every int16 value present; expectations from TLC's exported positions"""
     import spikeglx
     table = sorted(big, key=lambda e: sel_key(e["sel"]))
-    frac = 0.12 if ctx.quick else 1.0
+    frac = 0.25 if ctx.quick else 1.0
     dense4 = metagen.dense_sites("NP2.4", 384, 4)
     pool24 = c08.all_sites("NP2")
     specs = [
